@@ -58,6 +58,15 @@ func verifDo(req *http.Request) (*http.Response, error) {
 		if vUpAnswer != 0 && !vUpFailed {
 			// the service answers the first multipart call with nothing (or blanks): a failed call
 			vUpFailed = true
+			switch vUpAnswer {
+			case 3:
+				// the multipart call itself fails: a non-2xx status with a well-formed body
+				b, _ := json.Marshal(map[string]interface{}{"data": map[string]interface{}{"tag": one.Query}})
+				return &http.Response{StatusCode: 502, Body: &vBody{b}}, nil
+			case 4:
+				// ... or the connection drops after the service has read the request
+				return nil, errors.New("connection reset by peer")
+			}
 			return &http.Response{StatusCode: 200, Body: &vBody{[]byte([]string{"", "", " \n"}[vUpAnswer])}}, nil
 		}
 		b, _ := json.Marshal(map[string]interface{}{"data": map[string]interface{}{"tag": one.Query}})
@@ -124,7 +133,7 @@ var vEmptyErrs bool
 var vNoFail bool // the transport is healthy from here on
 var vFailKind int // how a failing call fails: transport error, 502 with a well-formed body, GraphQL errors with / without a message
 var vSentMultipart = make([]bool, len(vTags))
-var vUpAnswer int  // 0: multipart calls are answered normally; 1, 2: the first one is answered with an empty / blank body
+var vUpAnswer int  // 0: multipart calls are answered normally; 1, 2: the first one is answered with an empty / blank body; 3: with status 502; 4: the connection drops
 var vUpFailed bool
 
 // verifNewCancel backs context.WithCancel (engine model): a done channel and its cancel function
@@ -222,11 +231,11 @@ func VerifMixedUploads() {
 		}
 	}
 	if nup > 0 {
-		vUpAnswer = verifChoice("upanswer", 3)
+		vUpAnswer = verifChoice("upanswer", 5)
 	}
 	res, err := q.Query(inputs)
 	if vUpFailed {
-		verifAssert(err != nil, "a multipart call answered with nothing is reported as an error")
+		verifAssert(err != nil, "a multipart call that fails or is answered with nothing is reported as an error")
 		verifAssert(res == nil, "no partial results next to an error")
 		verifReach("upload answered with nothing")
 		return
